@@ -79,7 +79,12 @@ class C06(fw.Prop):
             "indices must give no answer.  non-trivial = the implementation returned at least one "
             "value (not only exceptions) in the case")
     trusted = ["constants are represented by the type their value reports (val.type_()); typing of values is C14",
-               "exception classes are observed but compared only as 'an exception was raised'",
+               "exception classes are observed but compared only as 'an exception was raised'; for port types "
+               "None and an exception are the same 'no type'; answers are compared only where the specification "
+               "speaks (operations the implementation refuses to construct are not judged)",
+               "sig/port/nth cases of Call and LoadFunc: the operation is read back from the constructed object's "
+               "public attributes (signature, instantiation, type_args); the constructor is judged by the 'new' "
+               "cases, when the instantiation handed over is known to be the signature's instance",
                "harness/tygen.py: two printers (term -> Gallina, hugr object -> Gallina) cross-checked on every "
                "generated type",
                "histories: the operation a node holds is read back from the operation object's public attributes "
@@ -202,6 +207,10 @@ class C06(fw.Prop):
         out = []
         if op[0] in ("Call", "LoadFunc"):
             out.append({"kind": "new", "op": op})
+            if not op[1][1] and not self.inst_ok(op):
+                # monomorphic function with an unrelated instantiation handed over: also the two well-formed calls
+                out.append({"kind": "new", "op": [op[0], op[1], None, None]})
+                out.append({"kind": "new", "op": [op[0], op[1], copy.deepcopy(op[1][2]), []]})
         out.append({"kind": "sig", "op": op})
         w = self.width(op) + 2
         if op[0] in ("Call", "LoadFunc") and op[2] is not None:
@@ -392,31 +401,59 @@ class C06(fw.Prop):
         except Exception as e:                              # noqa: BLE001
             return ["err", type(e).__name__]
         try:
-            return ["ok", pr(v), repr(v)[:200]]
+            shown = repr(v)[:200]
+        except Exception:                                   # noqa: BLE001 -- how an answer prints is not compared
+            shown = "<%s>" % type(v).__name__
+        try:
+            return ["ok", pr(v), shown]
         except Exception as e:                              # noqa: BLE001 -- answer outside the model's vocabulary
-            return ["ok", None, "unprintable %s: %r" % (type(e).__name__, v)]
+            return ["ok", None, "unprintable %s: %s" % (type(e).__name__, shown)]
 
     def pr_kind(self, k):
         from hugr import tys
         g = self.g
-        if type(k) is tys.ValueKind:
+        if isinstance(k, tys.ValueKind):
             return gapp("ValueKind", g.print_type(k.ty))
-        if type(k) is tys.ConstKind:
+        if isinstance(k, tys.ConstKind):
             return gapp("ConstKind", g.print_type(k.ty))
-        if type(k) is tys.FunctionKind:
+        if isinstance(k, tys.FunctionKind):
             return gapp("FunctionKind", g.print_poly(k.ty))
-        if type(k) is tys.CFKind:
+        if isinstance(k, tys.CFKind):
             return "CFKind"
-        if type(k) is tys.OrderKind:
+        if isinstance(k, tys.OrderKind):
             return "OrderKind"
         raise TypeError(k)
 
     def pr_sig(self, s):
         g = self.g
         from hugr import tys
-        if type(s) is not tys.FunctionType:
+        if not isinstance(s, tys.FunctionType):
             raise TypeError(s)
         return gpair(g.print_row(s.input), g.print_row(s.output), g.gnames(s.runtime_reqs))
+
+    def pr_otype(self, v):
+        """A port-type answer: a type, or None = no type."""
+        return gopt(None if v is None else self.g.print_type(v))
+
+    def inst_ok(self, op):
+        """Is the instantiation handed to the Call / LoadFunc constructor known to be the signature's instance at
+        the type arguments (so that the specification's "instantiated signature" is the one handed over)?
+        Monomorphic: none handed over, or the body itself.  Polymorphic: the shape rand_call builds -- first
+        parameter a list of types instantiated by a sequence, the body with the row spliced for the row variable
+        -- recomputed here; anything else is not known to be consistent and is not judged."""
+        _, poly, inst, targs = op
+        params, body = poly[1], poly[2]
+        if not params:
+            return inst is None or inst == body
+        if inst is None or targs is None or len(targs) != len(params):
+            return False
+        if params[0][0] != "PList" or params[0][1][0] != "PType" or targs[0][0] != "ASeq":
+            return False
+        if any(a[0] != "AType" for a in targs[0][1]) or any(p[0] != "PNat" for p in params[1:]):
+            return False
+        row = [a[1] for a in targs[0][1]]
+        want = subst_rowvar(["Func", body[1], body[2], []], 0, row)
+        return inst == ["F", want[1], want[2], body[3]]
 
     def observe(self, case, ctx):
         from hugr.hugr.base import Hugr
@@ -431,8 +468,8 @@ class C06(fw.Prop):
         except Exception as e:                              # noqa: BLE001
             return {"new": ["err", type(e).__name__]}
         if k == "new":
-            return {"new": ["ok", gpair(g.print_poly(op.signature), g.print_functy(op.instantiation),
-                                        gnat(len(op.type_args))), repr(op)[:200]]}
+            return {"new": self.guard(lambda: op, lambda o: gpair(
+                g.print_poly(o.signature), g.print_functy(o.instantiation), gnat(len(getattr(o, "type_args", ())))))}
         res = {"oplit": self.op_literal(case["op"], op)}
         if k == "sig":
             res["outer"] = self.guard(lambda: op.outer_signature(), self.pr_sig)
@@ -443,12 +480,12 @@ class C06(fw.Prop):
         elif k == "port":
             port = (InPort if case["dir"] == "in" else OutPort)(Node(0), case["z"])
             res["k"] = self.guard(lambda: op.port_kind(port), self.pr_kind)
-            res["t"] = self.guard(lambda: op.port_type(port), g.print_type)
+            res["t"] = self.guard(lambda: op.port_type(port), self.pr_otype)
             h = Hugr()
             n = h.add_node(op, h.root)
             hport = (InPort if case["dir"] == "in" else OutPort)(n, case["z"])
             res["hk"] = self.guard(lambda: h.port_kind(hport), self.pr_kind)
-            res["ht"] = self.guard(lambda: h.port_type(hport), lambda v: gopt(None if v is None else g.print_type(v)))
+            res["ht"] = self.guard(lambda: h.port_type(hport), self.pr_otype)
         elif k == "nth":
             res["ins"] = self.guard(lambda: op.nth_inputs(case["n"]), g.print_row)
             res["outs"] = self.guard(lambda: op.nth_outputs(case["n"]), g.print_row)
@@ -471,7 +508,7 @@ class C06(fw.Prop):
         if name == "ExtOp":
             # the definition's signature as the extension stores it (add_op_def adds the extension to the reqs)
             if real is not None:
-                pf = real._op_def.signature.poly_func
+                pf = real.op_def().signature.poly_func
                 dsig = gopt(None if pf is None else g.print_poly(pf))
             else:
                 dsig = gopt(None if a[2] is None else g.coq_poly(a[2]))
@@ -518,6 +555,10 @@ class C06(fw.Prop):
             return R(gapp("OFuncDecl", g.gname(a[0]), g.coq_poly(a[1])))
         if name == "Module":
             return R("OModule")
+        if name in ("Call", "LoadFunc") and real is not None:
+            # the operation as the implementation constructed it (its public attributes); what the constructor
+            # does with its arguments is the subject of the "new" cases only
+            return R(self.hist.print_op(real))
         if name in ("Call", "LoadFunc"):
             return gapp("call_new" if name == "Call" else "loadfunc_new", g.coq_poly(a[0]),
                         gopt(None if a[1] is None else g.coq_functy(a[1])),
@@ -549,10 +590,12 @@ class C06(fw.Prop):
             r = self.gres(o, "(mkP [] (mkF [%s] [] []), mkF [] [] [], 0%%nat)" % POISON)
             return gapp("CNew", gbool(t[0] == "Call"), g.coq_poly(a[0]),
                         gopt(None if a[1] is None else g.coq_functy(a[1])),
-                        gopt(None if a[2] is None else glist(g.coq_arg(x) for x in a[2])), r)
+                        gopt(None if a[2] is None else glist(g.coq_arg(x) for x in a[2])),
+                        gbool(self.inst_ok(t)), r)
         if "oplit" not in obs:
-            # the operation could not be constructed: the model must refuse it as well
-            oplit = self.op_literal(t)
+            # the implementation refused to construct the operation: there is no operation to ask, and which
+            # arguments a constructor accepts is not the property's subject (counted in the distribution)
+            oplit = "(Raise EOther)"
             dummy = "(Raise EOther)"
             if k == "sig":
                 return gapp("CSig", oplit, dummy, dummy, dummy, dummy, "None")
@@ -568,12 +611,17 @@ class C06(fw.Prop):
         if k == "port":
             pk = gapp("ValueKind", POISON)
             return gapp("CPort", oplit, "In" if case["dir"] == "in" else "Out", gZ(case["z"]),
-                        self.gres(obs["k"], pk), self.gres(obs["t"], POISON), self.gres(obs["hk"], pk),
+                        self.gres(obs["k"], pk), self.gres(obs["t"], gapp("Some", POISON)), self.gres(obs["hk"], pk),
                         self.gres(obs["ht"], gapp("Some", POISON)))
         if k == "nth":
             return gapp("CNth", oplit, gZ(case["n"]), self.gres(obs["ins"], "[%s]" % POISON),
                         self.gres(obs["outs"], "[%s]" % POISON))
         raise ValueError(k)
+
+    # ------------------------------------------------------------------ composition with C05 (harness/c06bridge.py)
+    def extra(self, ctx, tier):
+        import c06bridge
+        return c06bridge.extra(self, ctx, tier)
 
     # ------------------------------------------------------------------ reporting
     def describe(self, case, obs):
@@ -585,6 +633,8 @@ class C06(fw.Prop):
     def nontrivial(self, case, obs):
         if case["kind"] == "hist":
             return any(e[0] == "port" and e[7][0] == "ok" for e in obs["trace"])
+        if case["kind"] != "new" and "oplit" not in obs:
+            return False
         return any(v[0] == "ok" for k, v in obs.items() if k != "oplit")
 
     def signature(self, case, obs, ctx):
@@ -634,7 +684,8 @@ class C06(fw.Prop):
 
     def distribution(self, cases, observations):
         d = {"by_kind": {}, "by_op": {}, "exceptions": {}, "order_port_cases": 0, "arity_changing_calls": 0,
-             "incomplete_ops": 0, "linear_rows": 0, "rowvar_ops": 0}
+             "incomplete_ops": 0, "linear_rows": 0, "rowvar_ops": 0, "constructions_refused": 0,
+             "new_cases_with_known_instance": 0}
         seen = set()
         d["histories"] = self.hist.distribution(cases, observations)
         for c, o in zip(cases, observations):
@@ -643,6 +694,10 @@ class C06(fw.Prop):
                 continue
             name = c["op"][0]
             d["by_op"][name] = d["by_op"].get(name, 0) + 1
+            if o.get("new", ["ok"])[0] == "err":
+                d["constructions_refused"] += 1
+            if c["kind"] == "new" and self.inst_ok(c["op"]):
+                d["new_cases_with_known_instance"] += 1
             for k, v in o.items():
                 if k != "oplit" and v[0] == "err":
                     d["exceptions"][v[1]] = d["exceptions"].get(v[1], 0) + 1
